@@ -22,6 +22,7 @@
 From Coq Require Import List NArith ZArith Bool.
 From Coq Require Import Floats.SpecFloat.
 From XmlRs Require Import Base.CPred Base.NList Base.Float64.
+From XmlRs Require Import Spec.XPathCore Model.XPathFuncs.
 From XmlRs Require Import Model.XPathAst Model.XDoc Model.XPathScalar.
 Import ListNotations.
 Open Scope N_scope.
@@ -60,7 +61,7 @@ Definition expanded_name (ns : list (option str * str)) (q : qname)
   | QPrefixed p l =>
       match ns_lookup ns (Some p) with
       | Some u => Ok (l, Some p, Some u)
-      | None => Err (ENotFoundNamespace p)
+      | None => Err (XErrNotFoundNamespace p)
       end
   | QUnprefixed u => Ok (u, None, ns_lookup ns None)
   end.
@@ -155,8 +156,16 @@ Definition arith (f : f64 -> f64 -> f64) (a b : xvalue) : res xvalue :=
   bind (unwrap_num (val_to_number a)) (fun x =>
   bind (unwrap_num (val_to_number b)) (fun y => Ok (XNum (f x y)))).
 
+(** [impl Neg for Value]: [-a] *)
 Definition neg_value (a : xvalue) : res xvalue :=
-  bind (unwrap_num (val_to_number a)) (fun x => Ok (XNum (f64_sub f64_zero x))).
+  bind (unwrap_num (val_to_number a)) (fun x => Ok (XNum (f64_neg x))).
+
+(** [for _ in uni.inv() { value = -value; }] *)
+Fixpoint neg_times (k : nat) (v : xvalue) : res xvalue :=
+  match k with
+  | O => Ok v
+  | S k' => bind (neg_value v) (neg_times k')
+  end.
 
 (** ** comparisons (the equal_* / not_equal_* / greater_* / less_* families) *)
 
@@ -396,17 +405,17 @@ Definition eval_node_test (ns : list (option str * str)) (a : axis_spec) (t : no
            | NameAll => Ok true
            | NameNamespace p =>
                match ns_lookup ns (Some p) with
-               | None => Err (ENotFoundNamespace p)
+               | None => Err (XErrNotFoundNamespace p)
                | Some ua =>
                    match name_of doc i with
-                   | XNameErr => Err EDom
+                   | XNameErr => Err XErrDom
                    | XNameNone => Ok false
                    | XName _ _ ub => Ok (ostr_eqb (Some ua) ub)
                    end
                end
            | NameQName q =>
                match name_of doc i with
-               | XNameErr => Err EDom
+               | XNameErr => Err XErrDom
                | XNameNone => Ok false
                | XName la _ ua =>
                    bind (expanded_name ns q) (fun '(lb, _, ub) => Ok (str_eqb la lb && ostr_eqb ua ub))
@@ -477,19 +486,9 @@ Definition fn_lang : str := [108;97;110;103].
 Definition fn_sum : str := [115;117;109].
 Definition s_xmlns : str := [120;109;108;110;115].
 
-(** func::table(): (name, min, max) with inclusive bounds; every namespace URI is None *)
-Definition node_fn_table : list (str * N * option N) :=
-  [ (fn_last, 0, Some 0); (fn_position, 0, Some 0); (fn_count, 1, Some 1); (fn_id, 1, Some 1);
-    (fn_local_name, 0, Some 1); (fn_namespace_uri, 0, Some 1); (fn_name, 0, Some 1);
-    (fn_lang, 1, Some 1); (fn_sum, 1, Some 1) ].
-
-Definition func_table : list (str * N * option N) := node_fn_table ++ scalar_table.
-
-Definition find_func (name : str) : option (N * option N) :=
-  match find (fun e => str_eqb (fst (fst e)) name) func_table with
-  | Some e => Some (snd (fst e), snd e)
-  | None => None
-  end.
+(** func::table() is [func_table] (= Gen/FuncTableGen.table, regenerated from func.rs);
+    every namespace URI is None *)
+Definition find_func (name : str) : option (N * option N) := lookup_arity name func_table.
 
 (** the argument of local-name / namespace-uri / name: the first argument (a node-set) or the
     context node *)
@@ -497,7 +496,7 @@ Definition name_arg (args : list xvalue) (n : node) : res (list node) :=
   match args with
   | [] => Ok [n]
   | XNodes l :: _ => Ok l
-  | _ :: _ => Err EInvalidType
+  | _ :: _ => Err XErrInvalidType
   end.
 
 Definition fn_names (which : N) (args : list xvalue) (n : node) : res xvalue :=
@@ -506,7 +505,7 @@ Definition fn_names (which : N) (args : list xvalue) (n : node) : res xvalue :=
     | [] => Ok (XText [])
     | x :: _ =>
         match name_of doc x with
-        | XNameErr => Err EDom
+        | XNameErr => Err XErrDom
         | XNameNone => Ok (XText [])
         | XName local prefix uri =>
             if which =? 0 then Ok (XText local)                              (* local-name *)
@@ -588,11 +587,11 @@ Definition exec_fn (local : str) (args : list xvalue) (n : node) : M xvalue :=
     else if str_eqb local fn_count then
       (match args with
        | XNodes l :: _ => Ok (XNum (f64_of_N (len l)))
-       | _ :: _ => Err EInvalidType
+       | _ :: _ => Err XErrInvalidType
        | [] => Panic end, c)
     else if str_eqb local fn_id then
       (match root_of n with
-       | d :: _ => if has_doctype d then Err (ENotFoundFunction fn_id) else Ok (XNodes [])
+       | d :: _ => if has_doctype d then Err (XErrNotFoundFunction fn_id) else Ok (XNodes [])
        | [] => Ok (XNodes []) end, c)
     else if str_eqb local fn_local_name then (fn_names 0 args n, c)
     else if str_eqb local fn_namespace_uri then (fn_names 1 args n, c)
@@ -605,7 +604,7 @@ Definition exec_fn (local : str) (args : list xvalue) (n : node) : M xvalue :=
     else if str_eqb local fn_sum then
       (match args with
        | XNodes l :: _ => bind (sum_nodes f64_zero l) (fun s => Ok (XNum s))
-       | _ :: _ => Err EInvalidType
+       | _ :: _ => Err XErrInvalidType
        | [] => Panic end, c)
     else
       (let need := negb (str_eqb local fn_boolean || str_eqb local fn_not) in
@@ -615,10 +614,11 @@ Definition exec_fn (local : str) (args : list xvalue) (n : node) : M xvalue :=
              | _ => Ok [] end) (fun ctx_sv =>
        match scalar_fn ctx_sv local sargs with
        | ROk v => Ok (of_scalar v)
-       | RInvalidType => Err EInvalidType
-       | RInvalidArgumentCount => Err (EInvalidArgumentCount local)
-       | RNotFoundFunction => Err (ENotFoundFunction local)
+       | RErr EInvalidType => Err XErrInvalidType
+       | RErr EInvalidArgumentCount => Err (XErrInvalidArgumentCount local)
+       | RErr ENotFoundFunction => Err (XErrNotFoundFunction local)
        | RPanic => Panic
+       | RNeedsNode => Panic           (* not reachable: the node functions are handled above *)
        end)), c).
 
 (** the part of [eval_func_expr] before the arguments are evaluated: name resolution, table
@@ -628,8 +628,8 @@ Definition resolve_fn (ns : list (option str * str)) (name : qname) (nargs : N) 
     match uri, find_func local with
     | None, Some (mn, mx) =>
         if (nargs <? mn) || (match mx with Some m => m <? nargs | None => false end)
-        then Err (EInvalidArgumentCount local) else Ok local
-    | _, _ => Err (ENotFoundFunction local)
+        then Err (XErrInvalidArgumentCount local) else Ok local
+    | _, _ => Err (XErrNotFoundFunction local)
     end).
 
 (** ** the evaluator proper *)
@@ -718,8 +718,7 @@ with eval_mul_ops (l : mulop_list) (op1 : xvalue) (n : node) {struct l} : M xval
 with eval_unary_expr (e : unary_expr) (n : node) {struct e} : M xvalue :=
   match e with
   | EUnary inv u =>
-      v <- eval_union_expr u n ;;
-      if N.even inv then ret v else lift (neg_value v)
+      v <- eval_union_expr u n ;; lift (neg_times (N.to_nat inv) v)
   end
 
 with eval_union_expr (e : union_expr) (n : node) {struct e} : M xvalue :=
@@ -735,7 +734,7 @@ with eval_union_expr (e : union_expr) (n : node) {struct e} : M xvalue :=
       v <- eval_path_expr first n ;;
       match v with
       | XNodes l => eval_union_rest rest l n
-      | _ => lift (Err EInvalidType)
+      | _ => lift (Err XErrInvalidType)
       end
   end
 
@@ -746,7 +745,7 @@ with eval_union_rest (l : path_list) (acc : list node) (n : node) {struct l} : M
       v <- eval_path_expr p n ;;
       match v with
       | XNodes l' => eval_union_rest t (acc ++ l') n
-      | _ => lift (Err EInvalidType)
+      | _ => lift (Err XErrInvalidType)
       end
   end
 
@@ -774,7 +773,7 @@ with eval_path_expr (e : path_expr) (n : node) {struct e} : M xvalue :=
                          end) ;;
           collected <- flat_map_m (eval_rel_path l) nodes ;;
           ret (XNodes (sort_by_key collected))
-      | _ => lift (Err EInvalidType)
+      | _ => lift (Err XErrInvalidType)
       end
   end
 
@@ -785,7 +784,7 @@ with eval_filter_expr (e : filter_expr) (n : node) {struct e} : M xvalue :=
       v <- eval_primary_expr primary n ;;
       match v with
       | XNodes l => r <- eval_predicates preds l ;; ret (XNodes r)
-      | _ => lift (Err EInvalidType)
+      | _ => lift (Err XErrInvalidType)
       end
   end
 
@@ -809,7 +808,7 @@ with eval_primary_expr (e : primary_expr) (n : node) {struct e} : M xvalue :=
   | PrimVariable q =>
       fun c =>
         match expanded_name (c_ns c) q with
-        | Ok (local, _, _) => (Err (ENotFoundVariable local), c)
+        | Ok (local, _, _) => (Err (XErrNotFoundVariable local), c)
         | Err e => (Err e, c)
         | Panic => (Panic, c)
         | OutOfFuel => (OutOfFuel, c)
